@@ -338,6 +338,37 @@ func (r *sccpRun) step(b *ssa.BasicBlock, in ssa.Instruction) bool {
 		}
 		return r.set(x, cTop)
 	case *ssa.Lookup:
+		// v, ok := table[k] on a package-level table that is filled once from constants
+		if x.CommaOk {
+			if ld, ok := x.X.(*ssa.UnOp); ok {
+				if g, ok := ld.X.(*ssa.Global); ok {
+					if tab, ok := r.s.constMap(g); ok {
+						k := r.get(x.Index)
+						if k.k == 0 {
+							return false
+						}
+						if k.isPlain() {
+							if tup, isTup := x.Type().(*types.Tuple); isTup && tup.Len() == 2 {
+								v, has := tab[k.v.ExactString()]
+								val := cTop
+								if has {
+									val = cConst(v)
+								} else if zero := zeroConst(tup.At(0).Type()); zero != nil {
+									val = cConst(zero)
+								}
+								old, seen := r.tuple[x]
+								nt := []cval{val, cConst(constant.MakeBool(has))}
+								r.tuple[x] = nt
+								ch := !seen || len(old) != 2 || !old[0].eq(nt[0]) || !old[1].eq(nt[1])
+								r.val[x] = cTop
+								return ch
+							}
+						}
+					}
+				}
+			}
+			return r.set(x, cTop)
+		}
 		// a read of a package-level table that is filled once from constants
 		if !x.CommaOk {
 			if ld, ok := x.X.(*ssa.UnOp); ok {
